@@ -65,6 +65,7 @@ func runRules(p *Prog, prop, tier string) *Ctx {
 		}
 		c.rule = r
 		before := len(c.Obls)
+		t0 := time.Now()
 		func() {
 			defer func() {
 				if e := recover(); e != nil {
@@ -74,6 +75,9 @@ func runRules(p *Prog, prop, tier string) *Ctx {
 			r.Run(c)
 		}()
 		n := len(c.Obls) - before
+		if os.Getenv("DVERIF_TIMING") != "" {
+			fmt.Fprintf(os.Stderr, "timing %-18s %6d ms %5d obligations\n", r.ID, time.Since(t0).Milliseconds(), n)
+		}
 		// Floor is the instance count confirmed by reading today's tree. Helper extraction and
 		// similar refactorings move a few instances, so the alarm threshold is 85 % of it: it
 		// guards against a rule that silently stopped matching, not against exact counts.
